@@ -110,6 +110,7 @@ var messageCache = []msgCacheInfo{
 // rather substantial benefits for performance.
 func (m *Message) Free() {
 	if m != nil {
+		verifMsgFree(m)
 		if atomic.AddInt32(&m.refcnt, -1) == 0 {
 			for i := range messageCache {
 				if m.bsize == messageCache[i].maxbody {
@@ -126,6 +127,7 @@ func (m *Message) Free() {
 // If a read-only copy needs to be made "unique", callers can do so by
 // using the Uniq function.
 func (m *Message) Clone() {
+	verifMsgClone(m)
 	atomic.AddInt32(&m.refcnt, 1)
 }
 
@@ -178,5 +180,6 @@ func NewMessage(sz int) *Message {
 	m.Body = m.bbuf
 	m.Header = m.hbuf
 	atomic.StoreInt32(&m.refcnt, 1)
+	verifMsgNew(m, sz)
 	return m
 }
